@@ -9,7 +9,7 @@ HEADER = "From OCV Require Import Misc.Trap Misc.TrapOracle."
 AREA = "trap"
 ISOLATE = True
 TIMEOUT_MS = 20000
-LEVEL = "partial"
+LEVEL = "proof"
 SHRINK_KEY = "cos"
 RULE = ("1-5 coroutines on one real Scheduler, each a body of visible steps, suspends (0-3 before the fault), an "
         "optional switch to a grown segment, and at most one REAL fault: wild write, wild read, null write, "
